@@ -63,6 +63,8 @@ type PathResult struct {
 	Stubs       map[string]int
 	Known       map[string]int
 	ModelMismatch int
+	Witness *Violation // a satisfying assignment of a completed path (for native translator validation)
+	TouchedKnown bool
 }
 
 type Machine struct {
@@ -100,6 +102,7 @@ type Machine struct {
 
 	knownActive map[string]*Term // known-finding predicates currently asserted as excluded
 	knownKeys   map[string]bool
+	wantWitness func() bool
 	model       Model // a model of the current path condition, or nil
 	noCache     bool
 	noConcretize map[*Term]bool
@@ -168,6 +171,15 @@ func (m *Machine) RunPath(fn *ssa.Function, prefix []Decision, inits []*ssa.Func
 	}
 	m.runFunction(fn, nil, nil)
 	res.Kind = "done"
+	if m.wantWitness != nil && len(res.Violations) == 0 && !res.TouchedKnown && m.wantWitness() {
+		if r, model := m.check(m.ctx.Bool(true), true); r == RSat {
+			ch := map[string]int{}
+			for k, v := range m.choices {
+				ch[k] = v
+			}
+			res.Witness = &Violation{Harness: m.harness, Label: "witness", Kind: "witness", Model: model, Choices: ch}
+		}
+	}
 	return res
 }
 
@@ -307,7 +319,16 @@ func (m *Machine) check(extra *Term, wantModel bool) (SatResult, map[string]stri
 	}
 	r, model, errs := m.sol.Check(m.em.take(), []string{n}, wantModel, vars)
 	if r == RUnknown && errs == "" && !m.sol.dead && wantModel {
+		// obligations: escalate before giving up - non-incremental z3 5.1, then a longer budget,
+		// then z3 4.8.12 (a different search) - so that borderline queries do not make the verdict
+		// depend on machine load
 		r, model, errs = m.sol.OneShot([]string{n}, wantModel, vars, m.cfg.TimeoutMs)
+		if r == RUnknown && errs == "" {
+			r, model, errs = m.sol.OneShot([]string{n}, wantModel, vars, 3*m.cfg.TimeoutMs)
+		}
+		if r == RUnknown && errs == "" {
+			r, model, errs = m.sol.OneShotWith(SZ3, []string{n}, wantModel, vars, 3*m.cfg.TimeoutMs)
+		}
 	}
 	if slowLog != nil && time.Since(tq) > 500*time.Millisecond {
 		slowLog(fmt.Sprintf("%.1fs %s at %s choices=%v query=%s", time.Since(tq).Seconds(), r, m.position(), m.choices, extra.String()))
@@ -610,6 +631,9 @@ func (m *Machine) checkValue(t *Term, extra *Term) (SatResult, int) {
 	en := m.em.Name(extra)
 	m.sol.SetTimeout(m.cfg.FeasTimeoutMs)
 	r, model, errs := m.sol.Check(m.em.take(), []string{en}, true, []string{tn})
+	if r == RUnknown && errs == "" && !m.sol.dead {
+		r, model, errs = m.sol.OneShot([]string{en}, true, []string{tn}, m.cfg.TimeoutMs)
+	}
 	if errs != "" {
 		m.res.Incon = append(m.res.Incon, "solver error: "+errs)
 		return RUnknown, 0
